@@ -32,6 +32,7 @@ static Raw<OooEngine> E;
 static int owner_of_tag[KN + 3];          // tag -> caller (tags are handed out 1,2,... by the engine)
 static uint64_t mytag[KN]; static uint64_t resp[KN]; static bool live[KN]; static int cret[KN], cerr[KN];
 static OutOfOrderContext* ctxp[KN];
+static Raw<OutOfOrderContext> ctxs[KN];     // the callers' contexts: typed static storage (heap blocks make every access a byte-level extract); 'returned' is tracked by live[]
 static uint64_t cur_tag; static bool delivered[KN + 3]; static int nresp;
 static inline uint64_t payload(uint64_t tag) { return tag * 7 + 1; }
 static inline int owner_ctx(OutOfOrderContext* x) { for (int i = 0; i < KN; i++) if (ctxp[i] == x) return i; return -1; }
@@ -73,7 +74,7 @@ static inline __attribute__((always_inline)) int cb_dispatch(int kind, OutOfOrde
 
 template<int ME_> static inline __attribute__((always_inline)) void caller()
 {
-    OutOfOrderContext* c = new OutOfOrderContext;            // the caller's stack frame: released as soon as the call returns
+    OutOfOrderContext* c = new (&ctxs[ME_].v) OutOfOrderContext;   // the caller's stack frame; live[ME_] says whether the call is still in progress
     ctxp[ME_] = c; live[ME_] = true;
     c->engine = (OutOfOrder_Execution_Engine*)&E.v;
     c->do_issue.kind = 1; c->do_completion.kind = 2; c->do_collect.kind = 3;
@@ -83,7 +84,7 @@ template<int ME_> static inline __attribute__((always_inline)) void caller()
     cret[ME_] = r; cerr[ME_] = e;
     live[ME_] = false;
     if (r >= 0) CHECK(resp[ME_] == payload(mytag[ME_]), "a successful call holds exactly the response produced for its own request");
-    delete c;                                                // any later access by the engine or the reader is a use-after-return
+    c->ret = -77; c->tag = 0xdead;                           // the frame is gone: scribble over it (a later reader would see garbage)
 }
 extern "C" {
 void thread_entry_0() { caller<0>(); }
